@@ -570,14 +570,14 @@ func (t *Throttle) Submit(f func() error) error {
 	pendingLimit := t.pendingLimit
 	pending := t.pending
 	tooMany := pendingLimit < pending
-	disabled := t.disabled
-	if !tooMany || disabled {
-		t.pending++
-	}
-	t.Unlock()
 	if tooMany {
+		// Not counted (disabled or not): we are not going
+		// to wait, and nobody would ever un-count us.
+		t.Unlock()
 		return ThrottleOverflow
 	}
+	t.pending++
+	t.Unlock()
 
 	var err error
 	var worked bool
